@@ -94,7 +94,7 @@ def norm_errors(errs, rename=None):
     out = []
     for e in errs:
         l = e.split("\n")[0]
-        l = re.sub(r"^\S+\.go:\d+:\d+: ", "", l)
+        l = re.sub(r"^(\S+\.go:\d+:\d+: )+", "", l)
         l = re.sub(r"/(multi|soloc)\b", "/app", l)
         if rename:
             l = l.replace("inject %s:" % rename[0], "inject %s:" % rename[1])
